@@ -58,6 +58,8 @@ func checkC12(ctx *Ctx, r *Report) {
 	c12UnionWrapperClassified(ctx, r)
 	c12NoSiblingsOfRef(ctx, r, p)
 	c12FourthRound(ctx, r, p)
+	c12ConstructorCollections(ctx, r)
+	c12NumericKeywordsRead(ctx, r)
 }
 
 func c12Method(p *packages.Package, name string) *ast.FuncDecl {
@@ -1232,4 +1234,158 @@ func c12FourthRound(ctx *Ctx, r *Report, p *packages.Package) {
 // agree on the wire) and C12 (every encoded Go value validates against the emitted schema).
 func c12GoByteArrays(ctx *Ctx, r *Report) {
 	c01GoByteSliceTrap(ctx, r)
+}
+
+// c12ConstructorCollections (sibling agreement inside one expression): the Go constructor initialises a required
+// field whose type is a list or a map (`needsExplicitDefault` tests field.Type.IsArray() / IsMap() under
+// field.Required) so that the fresh object encodes as `[]` / `{}`, which the schema accepts, and not as `null`. A field
+// typed by a *named* list or map is a reference: each kind tested directly must also be tested on the resolved type.
+func c12ConstructorCollections(ctx *Ctx, r *Report) {
+	fn := ctx.LookupMethod("internal/jennies/golang", "RawTypes", "defaultsForStructRec")
+	fd, p := ctx.DeclOf(fn)
+	if fd == nil || fd.Body == nil {
+		r.Undecided("anchor lost: golang.RawTypes.defaultsForStructRec")
+		return
+	}
+	info := p.TypesInfo
+	var expr ast.Expr
+	ast.Inspect(fd.Body, func(m ast.Node) bool {
+		if as, ok := m.(*ast.AssignStmt); ok && len(as.Lhs) == 1 && len(as.Rhs) == 1 {
+			if id, ok := as.Lhs[0].(*ast.Ident); ok && id.Name == "needsExplicitDefault" && expr == nil {
+				expr = as.Rhs[0]
+			}
+		}
+		return true
+	})
+	if expr == nil {
+		r.Undecided("anchor changed: defaultsForStructRec no longer computes needsExplicitDefault")
+		return
+	}
+	var disjuncts []ast.Expr
+	var split func(e ast.Expr)
+	split = func(e ast.Expr) {
+		if be, ok := ast.Unparen(e).(*ast.BinaryExpr); ok && be.Op == token.LOR {
+			split(be.X)
+			split(be.Y)
+			return
+		}
+		disjuncts = append(disjuncts, ast.Unparen(e))
+	}
+	split(expr)
+	direct, resolved := map[string]token.Pos{}, map[string]bool{}
+	for _, d := range disjuncts {
+		txt := exprString(d)
+		if !strings.Contains(txt, ".Required") {
+			continue
+		}
+		ast.Inspect(d, func(m ast.Node) bool {
+			switch x := m.(type) {
+			case *ast.CallExpr:
+				sel, ok := x.Fun.(*ast.SelectorExpr)
+				if !ok {
+					return true
+				}
+				recv := exprString(sel.X)
+				kinds := []string{}
+				switch sel.Sel.Name {
+				case "IsArray":
+					kinds = append(kinds, "array")
+				case "IsMap":
+					kinds = append(kinds, "map")
+				case "IsAnyOf":
+					for _, a := range x.Args {
+						if id, ok := a.(*ast.SelectorExpr); ok {
+							if c, ok := info.Uses[id.Sel].(*types.Const); ok {
+								switch c.Name() {
+								case "KindArray":
+									kinds = append(kinds, "array")
+								case "KindMap":
+									kinds = append(kinds, "map")
+								}
+							}
+						}
+					}
+				}
+				for _, k := range kinds {
+					if strings.HasSuffix(recv, ".Type") {
+						direct[k] = x.Pos()
+					} else if strings.Contains(strings.ToLower(recv), "resolved") {
+						resolved[k] = true
+					}
+				}
+			}
+			return true
+		})
+	}
+	for _, k := range []string{"array", "map"} {
+		pos, ok := direct[k]
+		if !ok {
+			continue
+		}
+		r.Check(resolved[k], "siblings/constructor-collections-through-references", "golang.defaultsForStructRec initialises required "+k+" fields, named or not", pos, "the kind is also tested on the resolved type of a reference",
+			"a required field whose type is an in-line "+k+" is initialised by the constructor, the same field typed by a *named* "+k+" (a reference) is not: NewObj() encodes it as null, which the source schema and the emitted JSON Schema reject")
+	}
+	r.Count("collection kinds initialised by the Go constructor", len(direct))
+	r.Floor("collection kinds initialised by the Go constructor", 2)
+}
+
+// c12NumericKeywordsRead: the numeric constraint keywords a front-end's library hands over are the fields of its
+// schema type that hold a number or nothing (*big.Rat for santhosh-tekuri/jsonschema, *float64 for kin-openapi):
+// minimum, maximum, their exclusive forms, multipleOf. The list is taken from the library's type, not written here;
+// each of them has to be read by the front-end, or the constraint is silently dropped (and is missing from the
+// validation code and from the re-emitted schema).
+func c12NumericKeywordsRead(ctx *Ctx, r *Report) {
+	n := 0
+	for _, spec := range []struct{ rel, libSuffix, typeName, elem string }{
+		{"internal/jsonschema", "santhosh-tekuri/jsonschema/v5", "Schema", "math/big.Rat"},
+		{"internal/openapi", "kin-openapi/openapi3", "Schema", "float64"},
+	} {
+		p := ctx.Pkg(spec.rel)
+		if p == nil {
+			r.Undecided("package %s not found", spec.rel)
+			continue
+		}
+		var schemaT *types.Named
+		for _, imp := range p.Types.Imports() {
+			if strings.HasSuffix(imp.Path(), spec.libSuffix) {
+				if o, ok := imp.Scope().Lookup(spec.typeName).(*types.TypeName); ok {
+					schemaT, _ = o.Type().(*types.Named)
+				}
+			}
+		}
+		if schemaT == nil {
+			r.Undecided("anchor lost: %s does not import %s.%s", spec.rel, spec.libSuffix, spec.typeName)
+			continue
+		}
+		st, ok := schemaT.Underlying().(*types.Struct)
+		if !ok {
+			continue
+		}
+		read := map[*types.Var]bool{}
+		for _, f := range p.Syntax {
+			ast.Inspect(f, func(m ast.Node) bool {
+				if sel, ok := m.(*ast.SelectorExpr); ok {
+					if v := fieldOf(p.TypesInfo, sel); v != nil {
+						read[v] = true
+					}
+				}
+				return true
+			})
+		}
+		for i := 0; i < st.NumFields(); i++ {
+			f := st.Field(i)
+			ptr, ok := f.Type().(*types.Pointer)
+			if !ok || !f.Exported() {
+				continue
+			}
+			if types.TypeString(ptr.Elem(), nil) != spec.elem {
+				continue
+			}
+			n++
+			r.Check(read[f], "frontier/numeric-keywords-read", fmt.Sprintf("%s reads %s.%s", spec.rel, spec.typeName, f.Name()), token.NoPos, "the keyword is read by the front-end",
+				fmt.Sprintf("the library parses the numeric keyword held by %s.%s and the front-end %s never reads it: the constraint is dropped from the IR, from the generated validation and from the re-emitted schema", spec.typeName, f.Name(), spec.rel))
+		}
+	}
+	r.Count("numeric constraint keywords of the parser libraries", n)
+	r.Floor("numeric constraint keywords of the parser libraries", 7)
 }
